@@ -662,6 +662,18 @@ static std::string op_chain(const toks_t& t)
       auto pp = rlbox::sandbox_reinterpret_cast<char**>(p);
       tainted_v<char*> q = *pp;
       p = q;
+    } else if (c == "lc") {
+      // as "l", but the cell is consumed by a sandbox cast applied DIRECTLY to the tainted_volatile cell (no tainted copy first)
+      rep_t rep = static_cast<rep_t>(parse_u64(o[1]));
+      auto a = reinterpret_cast<uintptr_t>(p.UNSAFE_unverified());
+      if (a != 0) {
+        if (!committed(a, sizeof(rep_t))) throw uncommitted{};
+        std::memcpy(reinterpret_cast<void*>(a), &rep, sizeof(rep));
+      }
+      auto pp = rlbox::sandbox_reinterpret_cast<char**>(p);
+      if (o[2] == "r") p = rlbox::sandbox_reinterpret_cast<char*>(rlbox::sandbox_reinterpret_cast<long*>(*pp));
+      else if (o[2] == "c") p = rlbox::sandbox_const_cast<char*>(rlbox::sandbox_const_cast<const char*>(*pp));
+      else p = rlbox::sandbox_reinterpret_cast<char*>(rlbox::sandbox_static_cast<void*>(*pp));
     } else if (c == "g") {
       g_ret_rep = static_cast<rep_t>(parse_u64(o[1]));
       p = sbA.invoke_sandbox_function(retp);
